@@ -41,6 +41,11 @@ func (g *Gen) mapCompNames(t types.Type) (v, in, ln string) {
 	g.comp(v, fmt.Sprintf("(Array Int (Array %s %s))", ks, g.sortOf(mt.Elem())))
 	g.comp(in, fmt.Sprintf("(Array Int (Array %s Bool))", ks))
 	g.comp(ln, fmt.Sprintf("(Array Int %s)", g.idxSort()))
+	if isRefType(mt.Elem()) && g.sortOf(mt.Elem()) == "Int" {
+		// map values that are references: like pointer-valued memories, what a loop-head heap holds there
+		// denotes objects that existed before the head was reached
+		g.refComps[v] = "mapval:" + ks
+	}
 	return
 }
 
